@@ -29,6 +29,22 @@ Sub-checks
              octets differ; phase 2 serialises the kept objects in another order, phase 3 executes every op again: every
              outcome equals the first one; enum fields of built PDUs sit at the layout's positions with the member's value;
              afterwards every element enum still maps value -> member -> bits.
+             A further part draws batches across all classes (a CSBK built between two full-LC decodes, from_bytes next to
+             from_bits, elements between PDUs).
+  retained   objects that are kept: X is decoded (or built) and kept, near-twins of X are created one at a time, and after every
+             one of them X must still serialise to its first bits and carry its first field values (every other kept object
+             whose reachable state changed in any way is judged too; at the end all kept objects, and X created afresh).  No
+             knowledge of "neglected" bits is used: (1) per decoder, every accepted template string with zero / one fill and the
+             plain patterns x every single-bit flip through the same decoder (UDP/IPv4: also cut / extended to every length
+             around the exact fits); (2) per word length one *family* case set: one seeded fill R (and all-zero) read by every
+             from_bits entry point with every implemented opcode forced, plus every aligned 8 / 4-bit window of R read by the
+             element decoders (service options, FSN) - all kept - and then R with every single bit flipped through EVERY entry
+             point of the family (from_bits, from_bytes, typed, 77-bit / 10-octet forms) with every opcode, and every flipped
+             window through the element decoders, so that each kept object meets every object of its own and of every other
+             family that agrees with it in all bits but one; (3) per variant, X built from seeded fields (kept as built and
+             as decoded) x twins with one field at a time replaced by its boundary values (built, and built-then-decoded) and
+             decodes of every single-bit flip of its serialisation; (4) Hypothesis-drawn X with 1..6 twins of 1..3 flipped
+             positions through any decoder of that length.
   decode_atheris  (thorough) the same decoders and oracle under a coverage-guided Atheris campaign (vp/c03_atheris.py).
   elements   (c) every value 0..2^w-1 of every w<=8-bit element type against vp/refs/elements_ref.py.
   sync       the ten SYNC constants + random 48-bit values (SyncPatterns; not part of the w<=8 exhaustive claim).
@@ -68,6 +84,15 @@ RULE = (
     "interleaved: batches {ops, order} of 2..6 builds / decodes of one PDU class that differ in their enum-valued bits "
     "(listed members, unlisted in-range values of every fold range, values without member), deterministic 'unusual then "
     "ordinary' histories per (variant, enum element) plus Hypothesis-drawn batches; distinct by hash, all non-trivial. "
+    "retained: cases {kept objects X (decode / build ops), twins derived from an X by flipping single bits / cutting windows / "
+    "resizing / forcing another family's opcode / replacing one field}: deterministic enumeration per decoder (accepted template "
+    "strings x every single-bit flip), per word length (one seeded fill through every entry point and opcode of every family of "
+    "that length plus the element decoders on every aligned window, all kept, x every single-bit flip through every entry point), "
+    "per variant (seeded fields x one field replaced, x every single-bit flip of the serialisation) plus Hypothesis-drawn cases; "
+    "distinct by hash; non-trivial = X accepted and >= 1 twin created. "
+    "Preludes (vp/core.py): between two judgements of a case the module runs the case's object through repr / str / as_bytes, "
+    "re-decodes its serialisation through every decoder of that length, decodes near-twins, makes the calls the decoder has to "
+    "refuse (wrong lengths, wrong containers, unimplemented opcodes), and sends element values through every element of that width. "
     "Representation variants: bit-string fields are handed over as big-endian, little-endian (same bit sequence) and frozen "
     "bitarrays; decoders also receive frozenbitarrays. "
     "(b) decode: per decoder, bit strings of the right length, one third to one half uniform, the rest with opcode / "
@@ -1582,11 +1607,15 @@ def drv_interleaved(ctx: Ctx, sub: SubCheck):
         if d.cls in classes and d.method == "from_bits":
             classes[d.cls]["decoders"].append(name)
 
+    # "*": batches across families (a CSBK built between two full-LC decodes, an element decoded between two PDUs ...): ops of
+    # every class, the entry points from_bits / from_bytes / typed alike
+    classes["*"] = {"variants": list(variants()), "decoders": [n for n, d in decoders().items() if d.n is None or d.n > 8]}
+
     def batch_strategy(cls):
         parts = []
         for dn in classes[cls]["decoders"]:
             d = decoders()[dn]
-            pos = [(lo, hi, elem) for kw, elem, lo, hi, only in ENUM_POS[cls] if only is None]
+            pos = [(lo, hi, elem) for kw, elem, lo, hi, only in ENUM_POS.get(d.cls, []) if only is None] if d.method == "from_bits" else []
 
             def steer(a, d=d, pos=pos):
                 case, picks = a
@@ -1602,11 +1631,540 @@ def drv_interleaved(ctx: Ctx, sub: SubCheck):
         ops = st.lists(st.one_of(parts), min_size=2, max_size=4)
         return ops.flatmap(lambda o: st.permutations(list(range(len(o)))).map(lambda perm, o=o: {"ops": o, "order": list(perm)}))
 
-    def hyp(cls, t: Tally):
-        ctx.hypothesis(sub.name, batch_strategy(cls), oracle_interleaved, ctx.pick(60, 1500), tally=t, shard=cls,
+    def hyp(item, t: Tally):
+        cls, part = item
+        ctx.hypothesis(sub.name, batch_strategy(cls), oracle_interleaved, ctx.pick(60, 1500), tally=t, shard=f"{cls}#{part}",
                        record=lambda c, tt: tt.case(sub.name, key=c, nontrivial=nontrivial(c), cls=f"random_batch:{cls}"))
 
-    ctx.shards(hyp, sorted(classes))
+    ctx.shards(hyp, [(cls, 0) for cls in sorted(classes)] + [("*", part) for part in range(1, ctx.pick(4, 8))])
+
+
+# ======================================================================================================================
+# retained objects: create X (decode / build), keep it, create near-twins of X, judge X again after every one of them
+#
+# A case that decodes X and judges it at once never sees state that two decoded objects share (a memoised prototype whose
+# mutable parts are shared by every object made from it, an interned sub-element keyed by only some of its bits, a class-level
+# scratch buffer): the damage is done by a *later* decode of a near-twin - the same PDU / element in everything such a key
+# looks at, different in the bits it neglects (reserved bits, fill, a neighbouring field) - possibly through another entry
+# point (from_bytes) or another PDU family that carries the same element (service options in CSBK and full LC, the
+# fragment sequence number in data headers).  No knowledge of which bits are "neglected" is used: every bit of X is flipped
+# one at a time, through the decoder itself, its sibling entry points, every other family of the same length (its opcode
+# forced to every implemented value) and the element decoders on every aligned window.
+
+
+def _twin_bits(xbits: str, tw) -> str:
+    """the twin's input string, derived from the bits of X: flip positions, cut a window, place it into a carrier string,
+    resize (variable-length PDUs), fit to the twin decoder's fixed length, force fields (opcode of another family)"""
+    b = list(xbits)
+    for i in tw.get("flip", ()):
+        if i < len(b):
+            b[i] = "1" if b[i] == "0" else "0"
+    b = "".join(b)
+    if "window" in tw:
+        b = b[tw["window"][0]:tw["window"][1]]
+    if "into" in tw:
+        t, at = tw["into"]["bits"], tw["into"]["at"]
+        b = (t[:at] + b + t[at + len(b):])[:len(t)]
+    if "resize" in tw:
+        m = tw["resize"]
+        b = b[:m] if len(b) >= m else b + (tw.get("pad", "0") * (m - len(b)))
+    d = decoders()[tw["dec"]]
+    if d.n is not None and len(b) != d.n:
+        b = b[:d.n] if len(b) >= d.n else b + "0" * (d.n - len(b))
+    for lo, hi, val in tw.get("force", ()):
+        if hi <= len(b):
+            b = b[:lo] + format(val % (1 << (hi - lo)), f"0{hi - lo}b") + b[hi:]
+    return b
+
+
+def _twin_op(x_op, xbits, tw):
+    if tw["k"] == "build":  # the variant of X (or another one of its class) with some fields replaced
+        return {"k": tw.get("as", "build"), "variant": tw.get("variant", x_op.get("variant")), "f": dict(x_op.get("f", {}), **tw["set"]), "patch": []}
+    return {"k": "dec", "dec": tw["dec"], "bits": _twin_bits(xbits, tw)}
+
+
+_SETTABLE = {}
+
+
+def _settable(cls):
+    """names of the attributes of a library object that are fields a caller can set: constructor parameters, plus the attributes
+    the variant table compares for that class (differently named parameters); None = not introspectable (all public ones)"""
+    import inspect
+
+    if cls not in _SETTABLE:
+        try:
+            names = {n for n in inspect.signature(cls.__init__).parameters if n != "self"}
+        except (TypeError, ValueError):
+            names = None
+        if names is not None:
+            names |= {fl.attr for v in variants().values() if v.cls == cls.__name__ for fl in v.fields if fl.attr}
+        _SETTABLE[cls] = names
+    return _SETTABLE[cls]
+
+
+def snapshot(o, depth=0):
+    """plain-JSON picture of the field values of a library object (recursively; derived / diagnostic attributes left out)"""
+    import enum
+
+    if o is None or isinstance(o, (bool, int, str)):
+        return o
+    if isinstance(o, float):
+        return repr(o)
+    if isinstance(o, enum.Enum):
+        return f"{type(o).__name__}.{o.name}"
+    if isinstance(o, bitarray):
+        return "bits:" + o.to01()
+    if isinstance(o, (bytes, bytearray)):
+        return "hex:" + bytes(o).hex()
+    if isinstance(o, (list, tuple)):
+        return [snapshot(x, depth + 1) for x in o]
+    if isinstance(o, dict):
+        return sorted([repr(snapshot(k, depth + 1)), snapshot(x, depth + 1)] for k, x in o.items())
+    if hasattr(o, "__dict__") and depth < 5:
+        names = _settable(type(o))
+        d = {"__class__": type(o).__name__}
+        for k in sorted(vars(o)):
+            if k.startswith("_") or (names is not None and k not in names):
+                continue
+            x = vars(o)[k]
+            if callable(x) and not isinstance(x, enum.Enum):
+                continue
+            d[k] = snapshot(x, depth + 1)
+        return d
+    return type(o).__name__
+
+
+def _snap_diff(a, b, path=""):
+    if isinstance(a, dict) and isinstance(b, dict):
+        out = []
+        for k in sorted(set(a) | set(b)):
+            out += _snap_diff(a.get(k), b.get(k), f"{path}.{k}")
+        return out
+    return [] if a == b else [{"field": path or ".", "was": a, "now": b}]
+
+
+def _probe(o):
+    """cheap picture of the complete state reachable from a kept object (pre-filter only: a difference sends the object to the
+    precise comparison, it is never a verdict)"""
+    import pickle
+
+    try:
+        return pickle.dumps(o, protocol=4)
+    except Exception:
+        return None
+
+
+def oracle_retained(case):
+    """case = {xs: [op, ...], twins: [twin, ...]} (or {x: op, twins}); op as in the 'interleaved' batches; twin = {k: 'dec', dec,
+    of?, flip?, window?, into?, resize?, force?} (input derived from the serialisation of X number `of`, see _twin_bits) |
+    {k: 'build', of?, set: {field: value}, as?}.
+    Every X is created once and kept.  After every twin was created (rejected twins count too) the X it was derived from
+    must still serialise to the bits it gave when it was created and still carry the field values it carried then, and so
+    must every other kept X whose state changed in any way; at the end every kept X and twin is judged like that once more, and
+    creating each X afresh must give its first outcome."""
+    x_ops = case["xs"] if "xs" in case else [case["x"]]
+    xs = []  # [op, first bits, object, serialiser, first snapshot, probe]
+    for x_op in x_ops:
+        kind, s0, x, ser = _run_op(x_op)
+        if kind != "bits":
+            xs.append(None)
+            continue
+        if call(ser, x)[1].to01() != s0:  # (serialising twice in a row: not this sub-check's subject, but the base line must be stable)
+            raise Fail("serialisation_independent_of_history", "second serialisation differs from the first", "identical bits", klass=_op_label(x_op))
+        xs.append([x_op, s0, x, ser, snapshot(x), _probe(x)])
+    if not any(xs):
+        _LAST["outcome"] = "x_rejected"
+        return
+
+    def judge(j, why):
+        x_op, s0, x, ser, d0, _ = xs[j]
+        again = call(ser, x)[1].to01()
+        if again != s0:
+            raise Fail("retained_object_serialises_as_before", dict(_diffpos(again, s0), x=j, **why), "the bits this object gave when it was created", klass=_op_label(x_op))
+        d1 = snapshot(x)
+        if d1 != d0:
+            raise Fail("retained_object_fields_as_before", dict(changed=_snap_diff(d0, d1)[:8], x=j, **why), "the field values this object had when it was created", klass=_op_label(x_op))
+
+    kept = []
+    made = 0
+    live = [e[2] for e in xs if e is not None]
+    all0 = _probe(live)
+    for i, tw in enumerate(case["twins"]):
+        of = tw.get("of", 0)
+        if xs[of] is None:
+            continue
+        x_op = xs[of][0]
+        op = _twin_op(x_op, x_op["bits"] if x_op["k"] == "dec" else xs[of][1], tw)
+        k2, s2, o2, ser2 = _run_op(op)
+        if k2 == "bits":
+            kept.append((i, op, s2, o2, ser2))
+            made += 1
+        why = {"after_twin": i, "twin": op if op["k"] == "dec" else tw}
+        judge(of, why)
+        if len(live) > 1:
+            all1 = _probe(live)
+            if all1 is None or all1 != all0:  # something reachable from a kept object changed: find out which, judge it precisely
+                for j, e in enumerate(xs):
+                    if e is not None and j != of:
+                        pr = _probe(e[2])
+                        if pr is None or pr != e[5]:
+                            judge(j, why)
+                            e[5] = pr  # a change neither the serialisation nor the fields show: new base line of the pre-filter
+                xs[of][5] = _probe(xs[of][2])
+                all0 = all1
+    for j, e in enumerate(xs):
+        if e is not None:
+            judge(j, {"after_twin": "all"})
+    for i, op, s2, o2, ser2 in kept:
+        again = call(ser2, o2)[1].to01()
+        if again != s2:
+            raise Fail("retained_object_serialises_as_before", dict(_diffpos(again, s2), twin=i), "the bits this twin gave when it was created", klass=_op_label(op))
+    for j, e in enumerate(xs):
+        if e is not None:
+            k3, s3, _, _ = _run_op(e[0])
+            if (k3, s3) != ("bits", e[1]):
+                raise Fail("result_independent_of_history", _diffpos(s3, e[1]) if k3 == "bits" else [k3, s3], "the outcome of the same op before the twins", klass=_op_label(e[0]))
+    _LAST["outcome"] = f"x_kept:{made}_twins_made"
+
+
+def _retained_bases(d, rng, want):
+    """strings of decoder d that it accepts on the unchanged tree's layout knowledge (templates): (label, bits)"""
+    out, seen = [], set()
+    for lab, c in decode_boundary_cases(d, rng):
+        if c.get("rep") or lab.endswith("+flip") or lab.startswith("dedicated"):
+            continue
+        if lab in want and c["bits"] not in seen:
+            seen.add(c["bits"])
+            out.append((lab, c["bits"]))
+    return out
+
+
+SELECTOR_CLASSES = ("CSBK", "DataHeader", "FullLinkControl", "ShortLinkControl")  # PDU classes whose first steering group is the opcode / format
+
+
+def _first_forced(d):
+    """(lo, hi, values) of the decoder's opcode / format selector (first group of its first steering template), or None"""
+    return d.templates[0][0] if d.cls in SELECTOR_CLASSES and d.templates and d.templates[0] else None
+
+
+def _same_length_decoders(n):
+    """decoders that read a string of n bits; the 96-bit PDUs, the 77-bit full LC and its 10-octet form are one family (the
+    short forms read a prefix, a short X is zero-extended)"""
+    fam = 96 if n in (77, 80, 96) else n
+    return [name for name, d in decoders().items() if d.n is not None and (d.n == fam or (fam == 96 and d.n in (77, 80)))]
+
+
+ELEMENT_DECODERS = {"service_options.from_bits": 8, "fsn.from_bits": 4}  # element classes that PDUs of several families nest
+FAMILY_LENGTHS = (96, 144, 192, 36, 20, 16)
+
+
+def _force(bits, grp, v):
+    return bits if grp is None else bits[:grp[0]] + format(v, f"0{grp[1] - grp[0]}b") + bits[grp[1]:]
+
+
+def retained_family_cases(ctx, n, fill_no, rng):
+    """Cases of the family of all decoders that read n bits, around ONE seeded fill R of n bits.  Kept objects: R read by every
+    from_bits entry point of the family with the opcode / format forced to every implemented value, and (n = 96) every aligned
+    8-bit / 4-bit window of R read by the element decoders (service options, fragment sequence number).  Twins: R with every
+    single bit flipped (and R itself), through EVERY entry point of the family (from_bits, from_bytes, typed, short forms) with
+    every implemented opcode forced, and every single-bit flip of every window through the element decoders.  So each kept
+    object meets, one decode at a time, every object of its own and of every other family that agrees with it in all bits but
+    one (and the other family's selector).  One case per chunk of 8 flipped positions."""
+    R = format(rng.getrandbits(n), f"0{n}b")
+    if fill_no == 1:
+        R = "0" * n
+    elif fill_no == 2:
+        R = "1" * n
+    names = _same_length_decoders(n)
+    combos = []  # (decoder, force)
+    for name in names:
+        d = decoders()[name]
+        grp = _first_forced(d)
+        for v in ([None] if grp is None else grp[2]):
+            combos.append((name, [] if v is None else [[grp[0], grp[1], v]]))
+    xs = []
+    for name, force in combos:
+        d = decoders()[name]
+        if d.method != "from_bytes":
+            b = _twin_bits(R, {"dec": name, "force": force})
+            xs.append({"k": "dec", "dec": name, "bits": b})
+    x_index = {(x["dec"], x["bits"]): j for j, x in enumerate(xs)}
+    el_xs = []
+    if n == 96:
+        for el, w in ELEMENT_DECODERS.items():
+            for at in range(0, n, w):
+                el_xs.append((len(xs), el, at, w))
+                xs.append({"k": "dec", "dec": el, "bits": R[at:at + w]})
+    out = []
+    step = 8
+    for lo in range(0, n, step):
+        twins = []
+        for name, force in combos:
+            d = decoders()[name]
+            # the twin is expressed relative to a kept X of its own family where there is one (X read through from_bits), else X 0
+            b0 = _twin_bits(R, {"dec": name, "force": force})
+            of = x_index.get((name, b0))
+            if of is None:
+                of = next((j for j, x in enumerate(xs) if decoders()[x["dec"]].cls == d.cls and x["bits"][:min(len(b0), len(x["bits"]))] == b0[:min(len(b0), len(x["bits"]))]), 0)
+            for i in ([None] if lo == 0 else []) + list(range(lo, min(lo + step, d.n))):
+                twins.append({"k": "dec", "dec": name, "of": of, "flip": [] if i is None else [i], "force": force})
+        for j, el, at, w in el_xs:
+            if lo <= at < lo + step:
+                twins += [{"k": "dec", "dec": el, "of": j, "flip": [q]} for q in range(w)]
+        out.append((f"family:{n}_bits", {"xs": xs, "twins": twins}))
+    return out
+
+
+def retained_cases(ctx, name, rng):
+    """Deterministic cases of one decoder d (labelled).  Per accepted base string X (every implemented opcode / format with
+    zero and one fill - thorough: seeded random fill too -; all-zero / all-ones / alternating): twins through d itself - every
+    single-bit flip (variable-length PDUs: the header part, and X cut / extended to every length around the exact fits)."""
+    d = decoders()[name]
+    out = []
+    chunk = 48
+    want = {"all_zero", "all_ones", "alternating", "template_zero_fill", "template_one_fill"} | ({"template_random_fill"} if (d.n is None or not ctx.quick) else set())
+    bases = _retained_bases(d, rng, want)
+    if d.n is None:  # UDP/IPv4: plenty of template strings at 13 lengths - a seeded sample, every length present
+        by_len = {}
+        for lab, b in bases:
+            by_len.setdefault(len(b), []).append((lab, b))
+        bases = [x for n in sorted(by_len) for x in rng.sample(by_len[n], min(len(by_len[n]), ctx.pick(3, 8)))]
+    for lab, xb in bases:
+        n = len(xb)
+        x = {"k": "dec", "dec": name, "bits": xb}
+        flips = list(range(n))  # variable-length PDUs: the variable part too (n <= 104)
+        same = [{"k": "dec", "dec": name, "flip": [i]} for i in flips]
+        if d.n is None:
+            same += [{"k": "dec", "dec": name, "resize": m, "pad": p} for m in UDP_LENGTHS if m != n and (d.method != "from_bytes" or m % 8 == 0) for p in "01"]
+        for lo in range(0, len(same), chunk):
+            out.append((f"same_decoder:{lab}", {"x": x, "twins": same[lo:lo + chunk]}))
+    return out
+
+
+def _decoders_of_variant(v, n):
+    if v.decode_spec[0] == "from_bits_typed":
+        return [f"{v.cls.lower()}.from_bits_typed.{v.decode_spec[2]}"]
+    return [name for name, d in decoders().items() if d.cls == v.cls and d.method in ("from_bits", "from_bytes") and (d.n in (None, n) or (d.method == "from_bytes" and d.n == 8 * ((n + 7) // 8)))
+            and (d.method != "from_bytes" or n % 8 == 0 or v.cls == "FullLinkControl")]
+
+
+def retained_build_cases(ctx, v, rng):
+    """Deterministic cases of one variant: X = the PDU built from seeded field values (kept as built, and kept as decoded from
+    its serialisation); twins = the same PDU with one field at a time replaced by each of its compact boundary values (built,
+    and built-then-decoded), and the decodes of every single-bit flip of X's serialisation through the variant's decoders."""
+    gens = [(fl, fl.gen) for fl in v.fields if fl.kw is not None and fl.gen is not None]
+    out = []
+    for _ in range(ctx.pick(1, 3)):
+        f = {fl.kw: g.rnd(rng) for fl, g in gens}
+        n = v.nbits(f)
+        field_twins = []
+        for fl, g in gens:
+            if fl.const:
+                continue
+            vals = [b for b in g.core if not (b == f[fl.kw] and type(b) is type(f[fl.kw]))]
+            if len(vals) > 6:
+                vals = vals[:3] + rng.sample(vals[3:], 3)
+            for b in vals:
+                field_twins.append({"k": "build", "set": {fl.kw: b}, "as": "build"})
+                field_twins.append({"k": "build", "set": {fl.kw: b}, "as": "decode_patched"})
+        flip_twins = [{"k": "dec", "dec": dn, "flip": [i]} for dn in _decoders_of_variant(v, n) for i in range(min(n, 96 if v.cls != "UDPIPv4CompressedHeader" else 72))]
+        for xk in ("build", "decode_patched"):
+            x = {"k": xk, "variant": v.name, "f": f, "patch": []}
+            for lo in range(0, len(field_twins), 64):
+                out.append((f"x_{'built' if xk == 'build' else 'decoded'}:field_twins", {"x": x, "twins": field_twins[lo:lo + 64]}))
+            if xk == "build":
+                for lo in range(0, len(flip_twins), 96):
+                    out.append(("x_built:decoded_flip_twins", {"x": x, "twins": flip_twins[lo:lo + 96]}))
+    return out
+
+
+def drv_retained(ctx: Ctx, sub: SubCheck):
+    from hypothesis import strategies as st
+
+    def work(item, t: Tally):
+        kind, name = item
+        if kind == "dec":
+            cases = retained_cases(ctx, name, ctx.rng("retained", name))
+        elif kind == "family":
+            cases = retained_family_cases(ctx, name[0], name[1], ctx.rng("retained-family", *name))
+        else:
+            cases = retained_build_cases(ctx, variants()[name], ctx.rng("retained-build", name))
+        for label, case in cases:
+            _LAST["outcome"] = "failing"
+            ctx.run_case(sub.name, oracle_retained, case, t)
+            made = _LAST["outcome"]
+            t.case(sub.name, key=case, nontrivial=made.startswith("x_kept") and not made.startswith("x_kept:0_"), cls=label if made != "x_rejected" else "x_rejected")
+            if kind != "family":
+                t.cls(sub.name, ("decoder:" if kind == "dec" else "variant:") + name)
+            else:
+                t.cls(sub.name, "kept_objects_total", len(case["xs"]))
+            t.cls(sub.name, "twins_total", len(case["twins"]))
+        if cases:
+            t.sample(sub.name, cases[len(cases) // 2][1] if kind != "family" else {"xs": cases[0][1]["xs"][:2], "twins": cases[0][1]["twins"][:3]})
+
+    fills = ctx.pick([0, 1], [0, 1, 2, 3, 4, 5])
+    ctx.shards(work, [("family", (n, k)) for n in FAMILY_LENGTHS for k in fills] + [("dec", n) for n in decoders()] + [("build", n) for n in variants()])
+
+    # sampled: X drawn like the 'decode' strings, 1..6 twins with 1..3 flipped positions through any decoder of that length
+    def strategy(name):
+        d = decoders()[name]
+
+        def twins(c):
+            n = len(c["bits"])
+            names = [name] + ([x for x in _same_length_decoders(n) if x != name] if d.n is not None else [])
+            tw = st.fixed_dictionaries({"k": st.just("dec"), "dec": st.sampled_from(names), "flip": st.lists(st.integers(0, n - 1), min_size=1, max_size=3, unique=True).map(sorted)})
+            return st.lists(tw, min_size=1, max_size=6).map(lambda tws: {"x": {"k": "dec", "dec": name, "bits": c["bits"]}, "twins": tws})
+
+        return d.strategy().flatmap(twins)
+
+    def rec(c, t: Tally):
+        made = _LAST.get("outcome", "?")
+        t.case(sub.name, key=c, nontrivial=made.startswith("x_kept") and not made.startswith("x_kept:0_"), cls="sampled:" + ("x_rejected" if made == "x_rejected" else c["x"]["dec"]))
+
+    def hyp(name, t: Tally):
+        ctx.hypothesis(sub.name, strategy(name), oracle_retained, ctx.pick(30, 600), tally=t, shard=name, record=rec)
+
+    ctx.shards(hyp, [n for n, d in decoders().items() if d.n is None or d.n > 8])
+
+
+# ======================================================================================================================
+# preludes (vp/core.py "Preludes"): calls derived from the case that run between two judgements of it - the same value through
+# the sibling entry points, its near-twins, rightly refused variants of the same call, repr / str of the objects
+
+PRELUDE_GROUPS = ("pdu", "bits")
+
+
+def _case_op(sub, case):
+    """the op that creates the case's (first) object, or None"""
+    if sub in ("build", "build_boundary"):
+        return {"k": "build", "variant": case["variant"], "f": case["f"]}
+    if sub in ("decode", "decode_boundary", "decode_atheris"):
+        return {"k": "dec", "dec": case["dec"], "bits": case["bits"]}
+    if sub == "interleaved":
+        return case["ops"][0] if case.get("ops") else None
+    if sub == "retained":
+        return case["x"] if "x" in case else (case["xs"][0] if case.get("xs") else None)
+    return None
+
+
+def _op_create(a):
+    """create the object of op a, serialise it (bits and, where offered, bytes), render it (repr / str of it and of its nested
+    objects), and decode its serialisation again through every decoder of that length"""
+    kind, s, o, ser = _run_op(a)
+    if kind != "bits":
+        return
+    keep = [o]
+    for fn in (repr, str):
+        try:
+            fn(o)
+            for x in list(vars(o).values()):
+                fn(x)
+        except Exception:
+            pass
+    for meth in ("as_bytes", "as_bits"):
+        try:
+            getattr(o, meth)()
+        except Exception:
+            pass
+    for name in _same_length_decoders(len(s)) if len(s) not in (40, 56, 72) else ["udp.from_bits"]:
+        try:
+            keep.append(decoders()[name].run(bitarray(s)))
+        except Exception:
+            pass
+    return keep
+
+
+def _op_twins(a):
+    """a = {op, flips: [[positions]...], decs: [names]}: decode near-twins of the op's serialisation"""
+    kind, s, o, ser = _run_op(a["op"])
+    if kind != "bits":
+        return
+    keep = [o]
+    for fl in a["flips"]:
+        for name in a["decs"]:
+            try:
+                op = _twin_op(a["op"], s, {"k": "dec", "dec": name, "flip": fl})
+                keep.append(decoders()[name].run(bitarray(op["bits"])))
+            except Exception:
+                pass
+    return keep
+
+
+def _op_refused(a):
+    """a = {dec, bits}: calls the decoder has to refuse - wrong lengths, empty, wrong container types, opcode forced to values
+    without implementation"""
+    d = decoders()[a["dec"]]
+    b = a["bits"]
+    c = lib(d.cls)
+    variants_ = [b[:-1], b + "0", "", b[: len(b) // 2], b + b]
+    grp = _first_forced(d)
+    if grp is not None:
+        lo, hi, vals = grp
+        for v in range(1 << (hi - lo)):
+            if v not in vals and len(variants_) < 12:
+                variants_.append(b[:lo] + format(v, f"0{hi - lo}b") + b[hi:])
+    for s in variants_:
+        try:
+            d.run(bitarray(s))
+        except Exception:
+            pass
+    for arg in (None, b, bitarray(b).tobytes(), [int(x) for x in b], bitarray(b, endian="little")):
+        try:
+            (c.from_bits if d.method != "from_bytes" else c.from_bytes)(arg)
+        except Exception:
+            pass
+
+
+def _op_element(a):
+    """a = {elem, value}: the element's other entry points on the same value and on values it has to refuse"""
+    e, E = _elem(a["elem"])
+    w, v = e["width"], a["value"]
+    for fn in (lambda: E(v), lambda: E.from_bits(int2ba(v, length=w, endian="big")), lambda: E._missing_(v), lambda: repr(E(v)), lambda: E(v).as_bits(),
+               lambda: E(1 << w), lambda: E(-1), lambda: E(None), lambda: E("x"), lambda: E.from_bits(bitarray()), lambda: E.from_bits(int2ba(v, length=w + 1, endian="big")),
+               lambda: E(v ^ 1), lambda: E.from_bits(int2ba(v ^ 1, length=w, endian="big"))):
+        try:
+            fn()
+        except Exception:
+            pass
+    for name2, e2 in elements_ref.ELEMENTS.items():  # the same number / the same bits through every other element of that width
+        if name2 != a["elem"] and e2["width"] == w:
+            E2 = _elem(name2)[1]
+            for fn in (lambda: E2(v), lambda: E2.from_bits(int2ba(v, length=w, endian="big"))):
+                try:
+                    fn()
+                except Exception:
+                    pass
+
+
+PRELUDE_OPS = {"create": _op_create, "twins": _op_twins, "refused": _op_refused, "element": _op_element}
+
+
+def prelude_for(sub, case, rng):
+    if sub == "elements":
+        return [{"x": "element", "a": {"elem": case["elem"], "value": case["value"]}}]
+    if sub == "sync":
+        return []
+    op = _case_op(sub, case)
+    if op is None:
+        return []
+    calls = [{"x": "create", "a": op}]
+    if op["k"] == "dec":
+        n = len(op["bits"])
+        d = decoders()[op["dec"]]
+        decs = [op["dec"]] + ([x for x in _same_length_decoders(n) if x != op["dec"]] if d.n is not None else [])
+        flips = [[rng.randrange(n)] for _ in range(6)] if n else []
+        calls.append({"x": "twins", "a": {"op": op, "flips": flips, "decs": decs[:1] + rng.sample(decs[1:], min(2, len(decs) - 1))}})
+        calls.append({"x": "refused", "a": {"dec": op["dec"], "bits": op["bits"]}})
+    elif op.get("variant") in variants():
+        v = variants()[op["variant"]]
+        try:
+            n = v.nbits(op["f"])
+        except Exception:
+            n = 96
+        decs = _decoders_of_variant(v, n)
+        if decs:
+            calls.append({"x": "twins", "a": {"op": {"k": "build", "variant": op["variant"], "f": op["f"]}, "flips": [[rng.randrange(max(1, min(n, 72)))] for _ in range(6)], "decs": decs[:2]}})
+    return calls
 
 
 # ======================================================================================================================
@@ -1619,7 +2177,7 @@ def _elem(name):
 
 
 def oracle_element(case):
-    """case = {elem, value}"""
+    """case = {elem, value} (+ after: [elements of the same width whose constructor / from_bits see the value first])"""
     import enum
 
     name, v = case["elem"], case["value"]
@@ -1627,6 +2185,13 @@ def oracle_element(case):
     w = e["width"]
     kl = name
     vb = int2ba(v, length=w, endian="big")
+    for other in case.get("after", ()):  # the same number / bits through sibling elements of that width first (stimulus)
+        e2, E2 = _elem(other)
+        for fn in (lambda: E2(v), lambda: E2.from_bits(bitarray(vb)), lambda: E2(v).as_bits()):
+            try:
+                fn()
+            except Exception:
+                pass
     if e["kind"] == "class":
         # plain value class: every value of the width is valid and reproduces its bits
         _, o = call(E.from_bits, bitarray(vb))
@@ -1689,6 +2254,21 @@ def drv_elements(ctx: Ctx, sub: SubCheck):
             t.case(sub.name, nontrivial=True, cls=f"{name}:{_LAST['outcome']}")
         t.sample(sub.name, {"elem": name, "value": (1 << w) - 1})
 
+    def work_after(name, t: Tally):
+        """every value once more, in a worker that has not seen this element yet: first the other elements of the same width read
+        the value (order rotated with the value), then this one - a memo / intern table keyed on the bits alone would hand over
+        a sibling's member"""
+        w = elements_ref.ELEMENTS[name]["width"]
+        others = [n for n, e in elements_ref.ELEMENTS.items() if e["width"] == w and n != name]
+        if not others:
+            return
+        for v in range(1 << w):
+            k = v % len(others)
+            _LAST["outcome"] = "class" if elements_ref.ELEMENTS[name]["kind"] == "class" else "failing"
+            ctx.run_case(sub.name, oracle_element, {"elem": name, "value": v, "after": others[k:] + others[:k]}, t)
+            t.case(sub.name, nontrivial=True, cls=f"{name}:after_sibling_elements")
+
+    ctx.shards(work_after, list(elements_ref.ELEMENTS))  # separate workers, before the plain pass
     ctx.shards(work, list(elements_ref.ELEMENTS))
     ctx.tally.exhaustive[sub.name] = True
     ctx.tally.extra["element_types"] = len(elements_ref.ELEMENTS)
@@ -1742,6 +2322,9 @@ SUBCHECKS = [
              "with zero, one and random fill, and every single-bit flip of those (reserved bits, distance-1 opcodes)"),
     SubCheck("interleaved", oracle_interleaved, drv_interleaved, "two-phase batches: build / decode PDUs that differ in their enum octets (listed, unlisted in range, reserved, without "
              "member), serialise again in another order, execute again: every result equals the first one; enum fields at the layout's positions; elements unchanged"),
+    SubCheck("retained", oracle_retained, drv_retained, "retained objects: decode / build X and keep it, create near-twins of X (every single-bit flip through the same decoder, its "
+             "sibling entry points, every other PDU family of that length, the element decoders on every aligned window; one field at a time replaced): after "
+             "every twin X serialises to its first bits and carries its first field values; the kept twins and a fresh X likewise"),
     SubCheck("decode_atheris", oracle_decode, drv_atheris, "(b) coverage-guided (Atheris) campaign on the same decoders and oracle", tiers=("thorough",)),
     SubCheck("elements", oracle_element, drv_elements, "(c) all 2^w values of every w<=8-bit element: defined -> itself, undefined -> reserved member or error"),
     SubCheck("sync", oracle_sync, drv_sync, "SYNC constants and random 48-bit values"),
